@@ -55,8 +55,10 @@ func (v absVal) key() string {
 type b1State struct {
 	delta    lin
 	dateOpen bool
+	first    string // name of the first byte emitted on this path ("" = nothing yet)
 	env      map[types.Object]absVal
-	trace    []string // not part of the key
+	envx     map[string]absVal // nil-ness learnt about pure non-identifier expressions (slice[i]); cleared by any assignment
+	trace    []string          // not part of the key
 }
 
 func (s *b1State) Key() string {
@@ -64,14 +66,23 @@ func (s *b1State) Key() string {
 	for o, v := range s.env {
 		ks = append(ks, fmt.Sprintf("%s@%d=%s", o.Name(), o.Pos(), v.key()))
 	}
+	for e, v := range s.envx {
+		ks = append(ks, "x:"+e+"="+v.key())
+	}
 	sort.Strings(ks)
-	return fmt.Sprintf("%s|%v|%s", s.delta.String(), s.dateOpen, strings.Join(ks, ","))
+	return fmt.Sprintf("%s|%v|%s|%s", s.delta.String(), s.dateOpen, s.first, strings.Join(ks, ","))
 }
 
 func (s *b1State) Copy() PState {
-	n := &b1State{delta: s.delta, dateOpen: s.dateOpen, env: make(map[types.Object]absVal, len(s.env))}
+	n := &b1State{delta: s.delta, dateOpen: s.dateOpen, first: s.first, env: make(map[types.Object]absVal, len(s.env))}
 	for k, v := range s.env {
 		n.env[k] = v
+	}
+	if len(s.envx) > 0 {
+		n.envx = make(map[string]absVal, len(s.envx))
+		for k, v := range s.envx {
+			n.envx[k] = v
+		}
 	}
 	n.trace = append([]string(nil), s.trace...)
 	return n
@@ -80,6 +91,7 @@ func (s *b1State) Copy() PState {
 type b1Result struct {
 	delta    lin
 	dateOpen bool
+	first    string
 	trace    []string
 }
 
@@ -92,6 +104,7 @@ type b1 struct {
 	encRefer *types.Named
 	depth    int
 	isParam  map[*types.Var]bool
+	inline   bool // T3 mode: interpret contract callees too (first-emission sets)
 }
 
 func symOf(o types.Object) string { return fmt.Sprintf("%s", o.Name()) }
@@ -113,6 +126,12 @@ func (b *b1) evalExpr(info *types.Info, st *b1State, e ast.Expr) absVal {
 			v.l = &l
 		}
 		return v
+	}
+	switch e.(type) {
+	case *ast.IndexExpr, *ast.SelectorExpr, *ast.StarExpr:
+		if v, ok := st.envx[types.ExprString(e)]; ok {
+			return v
+		}
 	}
 	switch x := e.(type) {
 	case *ast.Ident:
@@ -241,8 +260,23 @@ func (b *b1) emit(st *b1State, info *types.Info, call *ast.CallExpr) {
 	default:
 		return
 	}
-	for _, a := range call.Args[1:] {
+	for i, a := range call.Args[1:] {
 		v := b.evalExpr(info, st, a)
+		if st.first == "" {
+			switch {
+			case v.tag != nil:
+				st.first = v.tag.Name()
+			case call.Ellipsis.IsValid() && i == len(call.Args)-2:
+				st.first = "?spread:" + types.ExprString(a)
+			default:
+				st.first = "?"
+				if ie, ok := ast.Unparen(a).(*ast.IndexExpr); ok {
+					if c := constOf(info, ie.X); c != nil && c.Name() == "digits" {
+						st.first = "DIGIT"
+					}
+				}
+			}
+		}
 		if v.tag == nil {
 			continue
 		}
@@ -319,7 +353,7 @@ func (b *b1) call(f *types.Func, args []absVal, dateOpen bool) []b1Result {
 			return
 		}
 		s := st.(*b1State)
-		results = append(results, b1Result{s.delta, s.dateOpen, s.trace})
+		results = append(results, b1Result{s.delta, s.dateOpen, s.first, s.trace})
 	}
 	w.Run(fd.Body, init)
 	if len(w.Undecided) > 0 {
@@ -329,7 +363,7 @@ func (b *b1) call(f *types.Func, args []absVal, dateOpen bool) []b1Result {
 	seen := map[string]bool{}
 	var out []b1Result
 	for _, r := range results {
-		k := fmt.Sprintf("%s|%v", r.delta.String(), r.dateOpen)
+		k := fmt.Sprintf("%s|%v|%s", r.delta.String(), r.dateOpen, r.first)
 		if !seen[k] {
 			seen[k] = true
 			out = append(out, r)
@@ -356,6 +390,14 @@ func (b *b1) walker(info *types.Info, self *types.Func) *Walk {
 				}
 			}
 		}
+		// x < 0 with x a length: infeasible
+		if be, ok := cond.(*ast.BinaryExpr); ok && (be.Op == token.LSS || be.Op == token.GEQ) {
+			if z, ok := intConst(info, be.Y); ok && z == 0 {
+				if v := b.evalExpr(info, st, be.X); v.l != nil && nonNegLen(*v.l) {
+					return nil, val == (be.Op == token.GEQ)
+				}
+			}
+		}
 		if be, ok := cond.(*ast.BinaryExpr); ok && (be.Op == token.EQL || be.Op == token.NEQ) {
 			isNilId := func(e ast.Expr) bool { id, ok := ast.Unparen(e).(*ast.Ident); return ok && id.Name == "nil" }
 			eq := val == (be.Op == token.EQL)
@@ -372,6 +414,20 @@ func (b *b1) walker(info *types.Info, self *types.Func) *Walk {
 		st := ps.(*b1State)
 		switch x := n.(type) {
 		case *ast.AssignStmt:
+			if len(st.envx) > 0 {
+				// an assignment may change what a remembered expression denotes, unless it only
+				// updates the output buffer
+				onlyBuf := true
+				for _, l := range x.Lhs {
+					if fv := fieldOf(info, l); fv == nil || fv.Name() != "buf" {
+						onlyBuf = false
+					}
+				}
+				if !onlyBuf {
+					st = st.Copy().(*b1State)
+					st.envx = nil
+				}
+			}
 			if len(x.Lhs) == len(x.Rhs) {
 				ns := st.Copy().(*b1State)
 				for i, l := range x.Lhs {
@@ -577,6 +633,21 @@ func (b *b1) refineNil(info *types.Info, st *b1State, e ast.Expr, isNil bool) (P
 			return ns, true
 		}
 	}
+	switch ast.Unparen(e).(type) {
+	case *ast.IndexExpr, *ast.SelectorExpr, *ast.StarExpr:
+		ns := st.Copy().(*b1State)
+		if ns.envx == nil {
+			ns.envx = map[string]absVal{}
+		}
+		nv := v
+		if isNil {
+			nv.n = nNil
+		} else {
+			nv.n = nNonNil
+		}
+		ns.envx[types.ExprString(ast.Unparen(e))] = nv
+		return ns, true
+	}
 	return nil, true
 }
 
@@ -588,6 +659,11 @@ func (b *b1) onCall(w *Walk, info *types.Info, st *b1State, call *ast.CallExpr, 
 	}
 	f := Callee(info, call)
 	if f == nil || !b.p.InRepo(f) {
+		if b.inline && st.first == "" && b.p.isDynamicCoderCall(info, call) {
+			ns := st.Copy().(*b1State)
+			ns.first = "DYN"
+			return []PState{ns}
+		}
 		return nil // dynamic dispatch / foreign code: balanced by contract
 	}
 	// reference counter primitives
@@ -610,7 +686,7 @@ func (b *b1) onCall(w *Walk, info *types.Info, st *b1State, call *ast.CallExpr, 
 		}
 		return nil
 	}
-	if b.contract[f] && f != self {
+	if b.contract[f] && f != self && !b.inline {
 		return nil // a contract function is balanced (that is what B1 proves of it)
 	}
 	var args []absVal
@@ -623,6 +699,9 @@ func (b *b1) onCall(w *Walk, info *types.Info, st *b1State, call *ast.CallExpr, 
 		ns := st.Copy().(*b1State)
 		ns.delta = ns.delta.add(r.delta)
 		ns.dateOpen = r.dateOpen
+		if ns.first == "" {
+			ns.first = r.first
+		}
 		if !r.delta.isZero() && len(ns.trace) < 12 {
 			ns.trace = append(ns.trace, fmt.Sprintf("%s via %s at %s {%s}", r.delta.String(), f.Name(), b.p.Rel(call.Pos()), strings.Join(r.trace, "; ")))
 		}
@@ -746,4 +825,17 @@ func ruleB1(r *Run) {
 		}
 	}
 	_ = packages.NeedName
+}
+
+// nonNegLen: a linear form that is a non-negative combination of len(...) symbols.
+func nonNegLen(l lin) bool {
+	if l.c < 0 {
+		return false
+	}
+	for s, k := range l.syms {
+		if k < 0 || !strings.HasPrefix(s, "len(") {
+			return false
+		}
+	}
+	return true
 }
